@@ -1,15 +1,21 @@
-"""E6 (first half) - symbolic evaluation of decision chains over a structured argument.
+"""E6 (first half) - symbolic evaluation of the compiler's Python subset.
 
 Functions such as ``compile_body``, ``compile_expression``, ``unify`` or ``visitPredicateexpression``
-are ``isinstance``/``==`` decision chains.  They are evaluated with symbolic arguments: pattern
-variables carry class constraints that the tests refine; attribute paths of pattern variables are
-pattern variables again; constructor applications, list literals and concatenations are kept as
-terms; same-class helpers are inlined; selected calls are kept as uninterpreted holes.  The
-result is one (constraints, value) pair per path.
+are ``isinstance``/``==`` decision chains over a structured argument.  They are evaluated with
+symbolic arguments: pattern variables carry class constraints that the tests refine; attribute
+paths of pattern variables are pattern variables again; constructor applications, lists, dicts
+and strings are kept as terms; helpers are inlined (policy given by the caller); selected calls
+are kept as uninterpreted holes.  The result is one (constraints, value) pair per path.
+
+With *concrete* arguments (syntax-tree objects built by the checker) every test is decided and the
+evaluation has a single path; the state then also carries the fields of ``self`` (scope stacks,
+counters), so that whole compile functions can be evaluated on sample clauses.
+
+Nothing of the repository is imported or executed: this is an evaluator over ``ast`` nodes.
 """
 import ast
 
-from .model import AnalysisError, own_nodes, is_name, is_self_attr, norm
+from .model import AnalysisError, own_nodes, is_name, is_self_attr, norm, FuncInfo
 
 
 class Sym:
@@ -47,17 +53,27 @@ class New:
         self.cls = cls
         self.args = list(args)
         self.kwargs = dict(kwargs or {})
+        self.fields = None          # set lazily when a method assigns a field of the object
 
     def __repr__(self):
         return '%s(%s)' % (self.cls.name, ', '.join(map(repr, self.args)))
 
 
 class ListV:
-    def __init__(self, items):
+    def __init__(self, items, tuple_=False):
         self.items = list(items)
+        self.tuple_ = tuple_
 
     def __repr__(self):
         return '[%s]' % ', '.join(map(repr, self.items))
+
+
+class DictV:
+    def __init__(self, pairs=()):
+        self.pairs = [list(p) for p in pairs]
+
+    def __repr__(self):
+        return '{%s}' % ', '.join('%r: %r' % (k, v) for k, v in self.pairs)
 
 
 class CatV:
@@ -95,6 +111,12 @@ class Fresh:
     def __repr__(self):
         return '%s#%d' % (self.tag, self.n)
 
+    def __eq__(self, o):
+        return isinstance(o, Fresh) and (o.tag, o.n) == (self.tag, self.n)
+
+    def __hash__(self):
+        return hash(('fresh', self.tag, self.n))
+
 
 class SelfV:
     def __init__(self, cls):
@@ -112,23 +134,47 @@ class Opaque:
         return '?%s' % self.text
 
 
+def _deep(v, memo):
+    """copy the mutable containers of a value (aliasing between them is preserved)"""
+    if isinstance(v, ListV):
+        if id(v) in memo:
+            return memo[id(v)]
+        c = ListV([], v.tuple_)
+        memo[id(v)] = c
+        c.items = [_deep(x, memo) for x in v.items]
+        return c
+    if isinstance(v, DictV):
+        if id(v) in memo:
+            return memo[id(v)]
+        c = DictV()
+        memo[id(v)] = c
+        c.pairs = [[_deep(k, memo), _deep(x, memo)] for k, x in v.pairs]
+        return c
+    return v
+
+
 class PathState:
     def __init__(self):
         self.classes = {}      # path -> frozenset(class names)   (possible classes)
         self.eqs = []          # (text of lhs, '==' | '!=', python value)
         self.truth = []        # (text, bool)
         self.env = {}
+        self.fields = {}       # fields of ``self``
         self.fresh = 0
         self.effects = []      # attribute stores / mutating calls seen on the path
+        self.yields = None
 
     def copy(self):
         p = PathState()
         p.classes = dict(self.classes)
         p.eqs = list(self.eqs)
         p.truth = list(self.truth)
-        p.env = dict(self.env)
+        memo = {}
+        p.env = {k: _deep(v, memo) for k, v in self.env.items()}
+        p.fields = {k: _deep(v, memo) for k, v in self.fields.items()}
         p.fresh = self.fresh
         p.effects = list(self.effects)
+        p.yields = _deep(self.yields, memo) if self.yields is not None else None
         return p
 
     def describe(self):
@@ -138,11 +184,43 @@ class PathState:
         return ', '.join(parts)
 
 
-class _Ret(Exception):
-    pass
-
-
 NORET = object()
+
+
+def _where(func):
+    return getattr(func, 'qname', getattr(func, 'name', '?'))
+
+
+def values_equal(a, b):
+    """True / False / None (undecided)"""
+    if isinstance(a, Const) and isinstance(b, Const):
+        return a.v == b.v
+    if isinstance(a, (New, SelfV)) or isinstance(b, (New, SelfV)):
+        if isinstance(a, Const) or isinstance(b, Const):
+            return False
+        if isinstance(a, (New, SelfV)) and isinstance(b, (New, SelfV)):
+            return a is b
+    if isinstance(a, Fresh) or isinstance(b, Fresh):
+        if isinstance(a, Fresh) and isinstance(b, Fresh):
+            return a == b
+        if isinstance(a, Const) or isinstance(b, Const):
+            return False
+    if isinstance(a, ListV) and isinstance(b, ListV):
+        if len(a.items) != len(b.items):
+            return False
+        res = True
+        for x, y in zip(a.items, b.items):
+            r = values_equal(x, y)
+            if r is False:
+                return False
+            if r is None:
+                res = None
+        return res
+    if isinstance(a, Sym) and isinstance(b, Sym) and a.path == b.path:
+        return True
+    if isinstance(a, tuple) and isinstance(b, tuple) and a and b and a[0] == b[0] == 'class':
+        return a[1] is b[1]
+    return None
 
 
 class SymEx:
@@ -156,6 +234,9 @@ class SymEx:
         self.max_depth = max_depth
         self.ignore_calls = ignore_calls
         self.depth = 0
+        self.steps = 0
+        self.max_steps = 400000
+        self._consts = {}
 
     # -- entry ----------------------------------------------------------------------------
     def run(self, func, args=None, state=None, with_self=False, kwargs=None):
@@ -184,14 +265,20 @@ class SymEx:
             if k2 in params:
                 env[k2] = v2
         if func.node.args.vararg is not None:
-            env[func.node.args.vararg.arg] = ListV(a[len(params):])
+            env[func.node.args.vararg.arg] = ListV(a[len(params):], True)
         saved = st.env
         st.env = env
         outs = []
+        gen = func.is_generator and not func.is_contextmanager
+        saved_y = st.yields
+        if gen:
+            st.yields = ListV([])
         for s, v in self.block(func.node.body, st, func):
-            s2 = s
-            s2.env = saved
-            outs.append((s2, None if v is NORET else v))
+            if gen:
+                v = s.yields
+                s.yields = saved_y
+            s.env = saved
+            outs.append((s, None if v is NORET else v))
         return outs
 
     # -- class constraints ----------------------------------------------------------------
@@ -230,7 +317,14 @@ class SymEx:
             return t, f
         if isinstance(v, New):
             return (st, None) if v.cls.name in sub else (None, st)
-        if isinstance(v, Const):
+        if isinstance(v, (Const, ListV, DictV, Fresh)):
+            k = {'str': str, 'int': int, 'list': list, 'dict': dict, 'tuple': tuple, 'bool': bool}
+            if isinstance(v, Const) and any(n in k and isinstance(v.v, k[n]) for n in cls_names):
+                return (st, None)
+            if isinstance(v, ListV) and (('tuple' in cls_names and v.tuple_) or ('list' in cls_names and not v.tuple_)):
+                return (st, None)
+            if isinstance(v, DictV) and 'dict' in cls_names:
+                return (st, None)
             return (None, st)
         if isinstance(v, SelfV):
             return (st, None) if v.cls.name in sub else (None, st)
@@ -250,15 +344,38 @@ class SymEx:
                 else:
                     nxt.extend(self.stmt(s, cur, func))
             states = nxt
+            if len(states) > 4096:
+                raise AnalysisError('symex: too many symbolic paths in %s' % _where(func))
         return states
 
     def stmt(self, s, st, func):
+        self.steps += 1
+        if self.steps > self.max_steps:
+            raise AnalysisError('symex: evaluation of %s does not finish' % _where(func))
         if isinstance(s, ast.Expr):
-            if isinstance(s.value, ast.Constant):
+            v = s.value
+            if isinstance(v, ast.Constant):
                 return [(st, NORET)]
-            if isinstance(s.value, ast.Call) and isinstance(s.value.func, ast.Attribute) and s.value.func.attr in self.ignore_calls:
+            if isinstance(v, ast.Call) and isinstance(v.func, ast.Attribute) and v.func.attr in self.ignore_calls:
                 return [(st, NORET)]
-            return [(s2, NORET) for s2, _ in self.ev(s.value, st, func)]
+            if isinstance(v, ast.Yield):
+                out = []
+                for s2, x in self.ev(v.value, st, func):
+                    if s2.yields is not None:
+                        s2.yields.items.append(x)
+                    out.append((s2, NORET))
+                return out
+            if isinstance(v, ast.YieldFrom):
+                out = []
+                for s2, x in self.ev(v.value, st, func):
+                    if s2.yields is not None:
+                        if isinstance(x, ListV):
+                            s2.yields.items.extend(x.items)
+                        else:
+                            s2.yields.items.append(CallV('yieldfrom', [x]))
+                    out.append((s2, NORET))
+                return out
+            return [(s2, NORET) for s2, _ in self.ev(v, st, func)]
         if isinstance(s, ast.Assign):
             out = []
             for s2, v in self.ev(s.value, st, func):
@@ -266,12 +383,19 @@ class SymEx:
                     self.assign(t, v, s2, func)
                 out.append((s2, NORET))
             return out
-        if isinstance(s, ast.AugAssign):
-            if is_self_attr(s.target):
-                st.effects.append('self.%s %s= %s' % (s.target.attr, type(s.op).__name__, norm(s.value)))
+        if isinstance(s, ast.AnnAssign):
+            if s.value is None:
                 return [(st, NORET)]
             out = []
-            for s2, v in self.ev(ast.BinOp(left=_load(s.target), op=s.op, right=s.value), st, func):
+            for s2, v in self.ev(s.value, st, func):
+                self.assign(s.target, v, s2, func)
+                out.append((s2, NORET))
+            return out
+        if isinstance(s, ast.AugAssign):
+            out = []
+            for s2, v in self.ev(ast.BinOp(left=_load(s.target), op=s.op, right=s.value, lineno=s.lineno, col_offset=0), st, func):
+                if is_self_attr(s.target):
+                    s2.effects.append('self.%s %s= %s' % (s.target.attr, type(s.op).__name__, norm(s.value)))
                 self.assign(s.target, v, s2, func)
                 out.append((s2, NORET))
             return out
@@ -284,7 +408,7 @@ class SymEx:
             for br, s2 in self.cond(s.test, st, func):
                 out.extend(self.block(s.body if br else s.orelse, s2, func))
             return out
-        if isinstance(s, ast.Pass):
+        if isinstance(s, (ast.Pass, ast.Global, ast.Nonlocal, ast.Import, ast.ImportFrom)):
             return [(st, NORET)]
         if isinstance(s, ast.Raise):
             st.effects.append('raise %s' % norm(s.exc) if s.exc is not None else 'raise')
@@ -292,26 +416,43 @@ class SymEx:
         if isinstance(s, ast.For):
             out = []
             for s2, it in self.ev(s.iter, st, func):
-                if isinstance(it, ListV):
-                    states = [(s2, NORET)]
-                    for item in it.items:
-                        nxt = []
-                        for cur, rv in states:
-                            if rv is not NORET:
-                                nxt.append((cur, rv))
-                                continue
-                            self.assign(s.target, item, cur, func)
-                            nxt.extend(self.block(s.body, cur, func))
-                        states = nxt
-                    out.extend(states)
-                else:
-                    raise AnalysisError('symex: loop over a symbolic sequence at %s line %d' % (func.qname, s.lineno))
+                it = self.as_sequence(it)
+                if it is None:
+                    raise AnalysisError('symex: loop over a symbolic sequence at %s line %d' % (_where(func), s.lineno))
+                states = [(s2, NORET)]
+                for item in it:
+                    nxt = []
+                    for cur, rv in states:
+                        if rv is not NORET:
+                            nxt.append((cur, rv))
+                            continue
+                        self.assign(s.target, item, cur, func)
+                        for c2, r2 in self.block(s.body, cur, func):
+                            if r2 is _BREAK:
+                                nxt.append((c2, _BROKE))
+                            elif r2 is _CONTINUE:
+                                nxt.append((c2, NORET))
+                            else:
+                                nxt.append((c2, r2))
+                    states = nxt
+                fin = []
+                for cur, rv in states:
+                    if rv is _BROKE:
+                        fin.append((cur, NORET))
+                    elif rv is NORET and s.orelse:
+                        fin.extend(self.block(s.orelse, cur, func))
+                    else:
+                        fin.append((cur, rv))
+                out.extend(fin)
             return out
+        if isinstance(s, ast.Break):
+            return [(st, _BREAK)]
+        if isinstance(s, ast.Continue):
+            return [(st, _CONTINUE)]
         if isinstance(s, ast.While):
-            # unrolled as long as the condition is decided on every path (bounded)
             done = []
             states = [(st, NORET)]
-            for _ in range(64):
+            for _ in range(256):
                 nxt = []
                 for cur, rv in states:
                     if rv is not NORET:
@@ -319,31 +460,148 @@ class SymEx:
                         continue
                     for br, s2 in self.cond(s.test, cur, func):
                         if br:
-                            nxt.extend(self.block(s.body, s2, func))
+                            for c2, r2 in self.block(s.body, s2, func):
+                                if r2 is _BREAK:
+                                    done.append((c2, NORET))
+                                elif r2 is _CONTINUE:
+                                    nxt.append((c2, NORET))
+                                else:
+                                    nxt.append((c2, r2))
                         else:
                             done.append((s2, NORET))
                 states = nxt
                 if not states:
                     break
-                if len(states) + len(done) > 256:
-                    raise AnalysisError('symex: while loop with a symbolic condition at %s line %d' % (func.qname, s.lineno))
+                if len(states) + len(done) > 512:
+                    raise AnalysisError('symex: while loop with a symbolic condition at %s line %d' % (_where(func), s.lineno))
             if states:
-                raise AnalysisError('symex: while loop does not terminate symbolically at %s line %d' % (func.qname, s.lineno))
+                raise AnalysisError('symex: while loop does not terminate symbolically at %s line %d' % (_where(func), s.lineno))
             return done
-        if isinstance(s, (ast.Yield,)):
-            raise AnalysisError('symex: generator body')
-        raise AnalysisError('symex: unsupported statement %s at %s line %d' % (type(s).__name__, func.qname, s.lineno))
+        if isinstance(s, ast.Try):
+            # no exception is assumed inside the evaluated subset: body, else, finally
+            out = []
+            for s2, rv in self.block(s.body, st, func):
+                if rv is NORET and s.orelse:
+                    res = self.block(s.orelse, s2, func)
+                else:
+                    res = [(s2, rv)]
+                for s3, rv3 in res:
+                    if s.finalbody:
+                        for s4, rv4 in self.block(s.finalbody, s3, func):
+                            out.append((s4, rv3 if rv4 is NORET else rv4))
+                    else:
+                        out.append((s3, rv3))
+            return out
+        if isinstance(s, ast.With):
+            return self._with(s, st, func)
+        if isinstance(s, ast.Assert):
+            return [(st, NORET)]
+        if isinstance(s, (ast.FunctionDef, ast.ClassDef)):
+            return [(st, NORET)]
+        if isinstance(s, ast.Delete):
+            return [(st, NORET)]
+        raise AnalysisError('symex: unsupported statement %s at %s line %d' % (type(s).__name__, _where(func), s.lineno))
+
+    def _with(self, s, st, func):
+        """``with self.helper():`` on a @contextmanager method: enter part, body, exit part"""
+        states = [(st, [])]
+        for item in s.items:
+            nxt = []
+            for cur, exits in states:
+                ce = item.context_expr
+                target = None
+                if isinstance(ce, ast.Call):
+                    for s2, f in self.ev(ce.func, cur, func):
+                        if isinstance(f, tuple) and f[0] in ('bound', 'func') and f[1].is_contextmanager:
+                            target = f
+                            cur = s2
+                if target is None:
+                    raise AnalysisError('symex: unsupported context manager %s at %s line %d' % (norm(ce), _where(func), s.lineno))
+                m = target[1]
+                body = m.node.body
+                idx = [i for i, b in enumerate(body) if isinstance(b, ast.Expr) and isinstance(b.value, ast.Yield)]
+                if len(idx) != 1:
+                    raise AnalysisError('symex: context manager %s is not "enter; yield; exit"' % m.qname)
+                args = [self.ev(a, cur, func)[0][1] for a in ce.args]
+                env = {}
+                ps = m.params
+                vals = ([target[2]] if target[0] == 'bound' else []) + args
+                for p, a in zip(ps, vals):
+                    env[p] = a
+                saved = cur.env
+                cur.env = env
+                res = self.block(body[:idx[0]], cur, m)
+                for c2, rv in res:
+                    yv = Const(None)
+                    yexpr = body[idx[0]].value.value
+                    if yexpr is not None:
+                        yv = self.ev(yexpr, c2, m)[0][1]
+                    menv = c2.env
+                    c2.env = saved
+                    if item.optional_vars is not None:
+                        self.assign(item.optional_vars, yv, c2, func)
+                    nxt.append((c2, exits + [(m, body[idx[0] + 1:], menv)]))
+            states = nxt
+        out = []
+        for cur, exits in states:
+            for c2, rv in self.block(s.body, cur, func):
+                cs = [(c2, rv)]
+                for m, tail, menv in reversed(exits):
+                    n2 = []
+                    for c3, rv3 in cs:
+                        saved = c3.env
+                        c3.env = menv
+                        for c4, rv4 in self.block(tail, c3, m):
+                            c4.env = saved
+                            n2.append((c4, rv3))
+                    cs = n2
+                out.extend(cs)
+        return out
 
     def assign(self, t, v, st, func):
         if isinstance(t, ast.Name):
             st.env[t.id] = v
         elif isinstance(t, ast.Attribute):
+            base = self.ev(t.value, st, func)[0][1]
+            if isinstance(base, SelfV):
+                st.fields[t.attr] = v
+            elif isinstance(base, New):
+                if base.fields is None:
+                    base.fields = {}
+                base.fields[t.attr] = v
             st.effects.append('%s = %r' % (norm(t), v))
-        elif isinstance(t, (ast.Tuple, ast.List)) and isinstance(v, ListV) and len(v.items) == len(t.elts):
-            for x, y in zip(t.elts, v.items):
+        elif isinstance(t, (ast.Tuple, ast.List)):
+            seq = self.as_sequence(v)
+            if seq is None or len(seq) != len(t.elts):
+                raise AnalysisError('symex: cannot unpack %r into %s at %s' % (v, norm(t), _where(func)))
+            for x, y in zip(t.elts, seq):
                 self.assign(x, y, st, func)
+        elif isinstance(t, ast.Subscript):
+            base = self.ev(t.value, st, func)[0][1]
+            idx = self.ev(t.slice, st, func)[0][1]
+            if isinstance(base, DictV):
+                for p in base.pairs:
+                    if values_equal(p[0], idx) is True:
+                        p[1] = v
+                        return
+                base.pairs.append([idx, v])
+            elif isinstance(base, ListV) and isinstance(idx, Const) and isinstance(idx.v, int) and -len(base.items) <= idx.v < len(base.items):
+                base.items[idx.v] = v
+            else:
+                st.effects.append('%s = %r' % (norm(t), v))
         else:
-            raise AnalysisError('symex: unsupported assignment target %s at %s' % (norm(t), func.qname))
+            raise AnalysisError('symex: unsupported assignment target %s at %s' % (norm(t), _where(func)))
+
+    def as_sequence(self, v):
+        if isinstance(v, ListV):
+            return list(v.items)
+        if isinstance(v, DictV):
+            return [k for k, _ in v.pairs]
+        if isinstance(v, Const) and isinstance(v.v, str):
+            return [Const(c) for c in v.v]
+        if isinstance(v, Const) and isinstance(v.v, (tuple, list)):
+            return [Const(c) for c in v.v]
+        return None
 
     # -- conditions -----------------------------------------------------------------------
     def cond(self, test, st, func):
@@ -352,7 +610,7 @@ class SymEx:
             if isinstance(test.op, ast.And):
                 out = []
                 states = [st]
-                for i, v in enumerate(test.values):
+                for v in test.values:
                     nxt = []
                     for s in states:
                         for br, s2 in self.cond(v, s, func):
@@ -379,14 +637,17 @@ class SymEx:
         if isinstance(test, ast.UnaryOp) and isinstance(test.op, ast.Not):
             return [(not br, s) for br, s in self.cond(test.operand, st, func)]
         if isinstance(test, ast.Call) and is_name(test.func, 'isinstance') and len(test.args) == 2:
-            names = [x.id for x in ast.walk(test.args[1]) if isinstance(x, ast.Name)]
             out = []
-            for s2, v in self.ev(test.args[0], st, func):
-                t, f = self.split_isinstance(s2, v, names)
-                if t is not None:
-                    out.append((True, t))
-                if f is not None:
-                    out.append((False, f))
+            for s1, cv in self.ev(test.args[1], st, func):
+                names = self._class_names(cv)
+                if names is None:
+                    names = [x.id for x in ast.walk(test.args[1]) if isinstance(x, ast.Name)]
+                for s2, v in self.ev(test.args[0], s1, func):
+                    t, f = self.split_isinstance(s2, v, names)
+                    if t is not None:
+                        out.append((True, t))
+                    if f is not None:
+                        out.append((False, f))
             return out
         if isinstance(test, ast.Compare) and len(test.ops) == 1:
             out = []
@@ -400,28 +661,63 @@ class SymEx:
             out.extend(self.truthy(v, s2, test))
         return out
 
+    def _class_names(self, v):
+        if isinstance(v, tuple) and v and v[0] == 'class':
+            return [v[1].name]
+        if isinstance(v, ListV) and v.items and all(isinstance(x, tuple) and x and x[0] == 'class' for x in v.items):
+            return [x[1].name for x in v.items]
+        return None
+
     def compare(self, op, l, r, st, test):
         eq = isinstance(op, (ast.Eq, ast.Is))
         ne = isinstance(op, (ast.NotEq, ast.IsNot))
-        if not (eq or ne):
+        if isinstance(op, (ast.In, ast.NotIn)):
+            seq = self.as_sequence(r)
+            if isinstance(l, Const) and isinstance(r, Const) and isinstance(l.v, str) and isinstance(r.v, str):
+                res = l.v in r.v
+                return [(res if isinstance(op, ast.In) else not res, st)]
+            if seq is not None:
+                found = False
+                unknown = False
+                for x in seq:
+                    e_ = values_equal(l, x)
+                    if e_ is True:
+                        found = True
+                        break
+                    if e_ is None:
+                        unknown = True
+                if found or not unknown:
+                    return [(found if isinstance(op, ast.In) else not found, st)]
             t, f = st.copy(), st.copy()
             t.truth.append((norm(test), True))
             f.truth.append((norm(test), False))
             return [(True, t), (False, f)]
-        if isinstance(l, Const) and isinstance(r, Const):
-            res = (l.v == r.v) if eq else (l.v != r.v)
-            return [(res, st)]
+        if not (eq or ne):
+            if isinstance(l, Const) and isinstance(r, Const):
+                try:
+                    res = {ast.Lt: l.v < r.v, ast.Gt: l.v > r.v, ast.LtE: l.v <= r.v, ast.GtE: l.v >= r.v}[type(op)]
+                    return [(res, st)]
+                except (TypeError, KeyError):
+                    pass
+            t, f = st.copy(), st.copy()
+            t.truth.append((norm(test), True))
+            f.truth.append((norm(test), False))
+            return [(True, t), (False, f)]
+        d = values_equal(l, r)
+        if d is not None:
+            return [(d if eq else not d, st)]
         if isinstance(l, ListV) and isinstance(r, ListV):
             if not l.items and not r.items:
                 return [(eq, st)]
             if bool(l.items) != bool(r.items):
                 return [(ne, st)]
-        if isinstance(l, (New, Fresh)) and isinstance(r, Const):
+        if isinstance(l, (New, Fresh, ListV, DictV)) and isinstance(r, Const):
+            return [(ne, st)]
+        if isinstance(r, (New, Fresh, ListV, DictV)) and isinstance(l, Const):
             return [(ne, st)]
         sym, other = (l, r) if not isinstance(l, Const) else (r, l)
         key = repr(sym)
         val = other.v if isinstance(other, Const) else repr(other)
-        # consistency with earlier decisions on the same path
         for k, o, v in st.eqs:
             if k == key and v == val:
                 return [((o == '==') == eq, st)]
@@ -437,7 +733,11 @@ class SymEx:
             return [(bool(v.v), st)]
         if isinstance(v, ListV):
             return [(bool(v.items), st)]
-        if isinstance(v, (New, Fresh)):
+        if isinstance(v, DictV):
+            return [(bool(v.pairs), st)]
+        if isinstance(v, (New, Fresh, SelfV)):
+            return [(True, st)]
+        if isinstance(v, tuple) and v and v[0] in ('class', 'func', 'bound'):
             return [(True, st)]
         key = repr(v)
         for k, t in st.truth:
@@ -449,6 +749,19 @@ class SymEx:
         return [(True, t), (False, f)]
 
     # -- expressions ----------------------------------------------------------------------
+    def module_const(self, mod, name, node):
+        key = (mod.name, name)
+        if key in self._consts:
+            return self._consts[key]
+        self._consts[key] = Opaque(name)        # guard against recursive definitions
+        try:
+            res = self.ev(node, PathState(), mod)
+            val = res[0][1] if len(res) == 1 else Opaque(name)
+        except AnalysisError:
+            val = Opaque(name)
+        self._consts[key] = val
+        return val
+
     def ev(self, e, st, func):
         if e is None:
             return [(st, Const(None))]
@@ -462,15 +775,28 @@ class SymEx:
                 return [(st, ('class', r[1]))]
             if r and r[0] in ('func', 'nested'):
                 return [(st, ('func', r[1]))]
-            if r and r[0] == 'var' and isinstance(r[2], ast.Constant):
-                return [(st, Const(r[2].value))]
+            if r and r[0] == 'var':
+                if isinstance(r[2], ast.Constant):
+                    return [(st, Const(r[2].value))]
+                if isinstance(r[2], (ast.Tuple, ast.List, ast.Dict, ast.Set, ast.Name, ast.BinOp, ast.JoinedStr)):
+                    return [(st, _deep(self.module_const(r[1], e.id, r[2]), {}))]
+            if e.id in ('True', 'False', 'None'):
+                return [(st, Const({'True': True, 'False': False, 'None': None}[e.id]))]
             return [(st, Opaque(e.id))]
         if isinstance(e, ast.Attribute):
             out = []
             for s2, b in self.ev(e.value, st, func):
-                out.append((s2, self.attr(b, e.attr, s2, func, e)))
+                v = self.attr(b, e.attr, s2, func, e)
+                if isinstance(v, tuple) and v and v[0] == 'bound' and v[1].is_property and self.depth < self.max_depth:
+                    self.depth += 1
+                    try:
+                        out.extend(self.run(v[1], [v[2]], s2, with_self=True))
+                    finally:
+                        self.depth -= 1
+                else:
+                    out.append((s2, v))
             return out
-        if isinstance(e, (ast.List, ast.Tuple)):
+        if isinstance(e, (ast.List, ast.Tuple, ast.Set)):
             states = [(st, [])]
             for x in e.elts:
                 nxt = []
@@ -481,42 +807,51 @@ class SymEx:
                         else:
                             nxt.append((s3, items + [v]))
                 states = nxt
-            return [(s2, ListV(items)) for s2, items in states]
-        if isinstance(e, ast.BinOp) and isinstance(e.op, ast.Add):
+            return [(s2, ListV(items, isinstance(e, ast.Tuple))) for s2, items in states]
+        if isinstance(e, ast.Dict):
+            states = [(st, [])]
+            for k, x in zip(e.keys, e.values):
+                nxt = []
+                for s2, pairs in states:
+                    if k is None:
+                        for s3, v in self.ev(x, s2, func):
+                            nxt.append((s3, pairs + (v.pairs if isinstance(v, DictV) else [])))
+                        continue
+                    for s3, kv in self.ev(k, s2, func):
+                        for s4, v in self.ev(x, s3, func):
+                            nxt.append((s4, pairs + [[kv, v]]))
+                states = nxt
+            return [(s2, DictV(pairs)) for s2, pairs in states]
+        if isinstance(e, ast.BinOp):
             out = []
             for s2, l in self.ev(e.left, st, func):
                 for s3, r in self.ev(e.right, s2, func):
-                    if isinstance(l, ListV) and isinstance(r, ListV):
-                        out.append((s3, ListV(l.items + r.items)))
-                    elif isinstance(l, Const) and isinstance(r, Const):
-                        try:
-                            out.append((s3, Const(l.v + r.v)))
-                        except TypeError:
-                            out.append((s3, Opaque(norm(e))))
-                    else:
-                        out.append((s3, CatV([l, r])))
+                    out.append((s3, self.binop(e, l, r)))
             return out
-        if isinstance(e, ast.BinOp):
-            outs = []
-            for s2, l in self.ev(e.left, st, func):
-                for s3, r in self.ev(e.right, s2, func):
-                    outs.append((s3, CallV(type(e.op).__name__, [l, r])))
-            return outs
         if isinstance(e, ast.Call):
             return self.call(e, st, func)
         if isinstance(e, ast.JoinedStr):
-            return [(st, Opaque('fstring'))]
-        if isinstance(e, ast.Subscript):
-            out = []
-            for s2, b in self.ev(e.value, st, func):
-                for s3, i in self.ev(e.slice, s2, func):
-                    if isinstance(b, ListV) and isinstance(i, Const) and isinstance(i.v, int) and -len(b.items) <= i.v < len(b.items):
-                        out.append((s3, b.items[i.v]))
-                    elif isinstance(b, Sym):
-                        out.append((s3, Sym('%s[%s]' % (b.path, i.v if isinstance(i, Const) else repr(i)))))
+            states = [(st, [])]
+            for v in e.values:
+                nxt = []
+                for s2, parts in states:
+                    if isinstance(v, ast.Constant):
+                        nxt.append((s2, parts + [Const(v.value)]))
                     else:
-                        out.append((s3, CallV('getitem', [b, i])))
+                        for s3, x in self.ev(v.value, s2, func):
+                            nxt.append((s3, parts + [x]))
+                states = nxt
+            out = []
+            for s2, parts in states:
+                if all(isinstance(p, Const) and isinstance(p.v, (str, int)) and not isinstance(p.v, bool) for p in parts):
+                    out.append((s2, Const(''.join(str(p.v) for p in parts))))
+                elif all(isinstance(p, (Const, Fresh)) for p in parts) and len([p for p in parts if isinstance(p, Fresh)]) == 1:
+                    out.append((s2, [p for p in parts if isinstance(p, Fresh)][0]))
+                else:
+                    out.append((s2, Opaque('fstring')))
             return out
+        if isinstance(e, ast.Subscript):
+            return self.subscript(e, st, func)
         if isinstance(e, ast.UnaryOp) and not isinstance(e.op, ast.Not):
             out = []
             for s2, v in self.ev(e.operand, st, func):
@@ -525,7 +860,19 @@ class SymEx:
                 else:
                     out.append((s2, CallV(type(e.op).__name__, [v])))
             return out
-        if isinstance(e, (ast.Compare, ast.BoolOp, ast.UnaryOp)):
+        if isinstance(e, ast.BoolOp):
+            # value semantics of  a or b / a and b
+            out = []
+            first = self.ev(e.values[0], st, func)
+            rest = e.values[1] if len(e.values) == 2 else ast.BoolOp(op=e.op, values=e.values[1:])
+            for s2, a in first:
+                for br, s3 in self.truthy(a, s2, e.values[0]):
+                    if br == isinstance(e.op, ast.Or):
+                        out.append((s3, a))
+                    else:
+                        out.extend(self.ev(rest, s3, func))
+            return out
+        if isinstance(e, (ast.Compare, ast.UnaryOp)):
             out = []
             for br, s2 in self.cond(e, st, func):
                 out.append((s2, Const(br)))
@@ -535,53 +882,177 @@ class SymEx:
             for br, s2 in self.cond(e.test, st, func):
                 out.extend(self.ev(e.body if br else e.orelse, s2, func))
             return out
-        if isinstance(e, ast.ListComp) and len(e.generators) == 1 and not e.generators[0].ifs:
-            g = e.generators[0]
-            out = []
-            for s2, it in self.ev(g.iter, st, func):
-                if isinstance(it, ListV):
-                    states = [(s2, [])]
-                    for item in it.items:
-                        nxt = []
-                        for s3, items in states:
-                            self.assign(g.target, item, s3, func)
-                            for s4, v in self.ev(e.elt, s3, func):
-                                nxt.append((s4, items + [v]))
-                        states = nxt
-                    out.extend((s3, ListV(items)) for s3, items in states)
-                else:
-                    s3 = s2.copy()
-                    var = Sym('elem(%r)' % (it,))
-                    self.assign(g.target, var, s3, func)
-                    res = self.ev(e.elt, s3, func)
-                    out.append((s2, CallV('map', [res[0][1] if res else Opaque('?'), it])))
-            return out
+        if isinstance(e, (ast.ListComp, ast.GeneratorExp, ast.SetComp)) and len(e.generators) == 1:
+            return self.comprehension(e, st, func)
         if isinstance(e, ast.Lambda):
-            return [(st, Opaque('lambda'))]
-        if isinstance(e, ast.Dict):
-            return [(st, Opaque('dict'))]
-        raise AnalysisError('symex: unsupported expression %s at %s line %d' % (type(e).__name__, func.qname, getattr(e, 'lineno', 0)))
+            return [(st, ('lambda', e, func))]
+        if isinstance(e, ast.Starred):
+            return self.ev(e.value, st, func)
+        if isinstance(e, ast.Slice):
+            return [(st, Opaque('slice'))]
+        if isinstance(e, ast.FormattedValue):
+            return self.ev(e.value, st, func)
+        raise AnalysisError('symex: unsupported expression %s at %s line %d' % (type(e).__name__, _where(func), getattr(e, 'lineno', 0)))
+
+    def binop(self, e, l, r):
+        op = e.op
+        if isinstance(op, ast.Add):
+            if isinstance(l, ListV) and isinstance(r, ListV):
+                return ListV(l.items + r.items, l.tuple_)
+            if isinstance(l, Const) and isinstance(r, Const):
+                try:
+                    return Const(l.v + r.v)
+                except TypeError:
+                    return Opaque(norm(e))
+            if isinstance(l, Const) and isinstance(l.v, str) and isinstance(r, Fresh):
+                return r
+            return CatV([l, r])
+        if isinstance(l, Const) and isinstance(r, Const) and not isinstance(l.v, bool):
+            try:
+                if isinstance(op, ast.Sub):
+                    return Const(l.v - r.v)
+                if isinstance(op, ast.Mult):
+                    return Const(l.v * r.v)
+                if isinstance(op, ast.FloorDiv):
+                    return Const(l.v // r.v)
+                if isinstance(op, ast.Mod) and isinstance(l.v, int):
+                    return Const(l.v % r.v)
+                if isinstance(op, ast.Mod) and isinstance(l.v, str):
+                    return Const(l.v % r.v)
+            except Exception:
+                pass
+        if isinstance(op, ast.Mod) and isinstance(l, Const) and isinstance(l.v, str) and isinstance(r, ListV) and \
+                all(isinstance(x, Const) for x in r.items):
+            try:
+                return Const(l.v % tuple(x.v for x in r.items))
+            except Exception:
+                pass
+        if isinstance(op, ast.Mult) and isinstance(l, ListV) and isinstance(r, Const) and isinstance(r.v, int):
+            return ListV(l.items * r.v)
+        return CallV(type(op).__name__, [l, r])
+
+    def subscript(self, e, st, func):
+        out = []
+        for s2, b in self.ev(e.value, st, func):
+            if isinstance(e.slice, ast.Slice):
+                lo = self.ev(e.slice.lower, s2, func)[0][1] if e.slice.lower is not None else Const(None)
+                hi = self.ev(e.slice.upper, s2, func)[0][1] if e.slice.upper is not None else Const(None)
+                stp = self.ev(e.slice.step, s2, func)[0][1] if e.slice.step is not None else Const(None)
+                if isinstance(b, ListV) and all(isinstance(x, Const) for x in (lo, hi, stp)):
+                    out.append((s2, ListV(b.items[lo.v:hi.v:stp.v], b.tuple_)))
+                elif isinstance(b, Const) and isinstance(b.v, str) and all(isinstance(x, Const) for x in (lo, hi, stp)):
+                    out.append((s2, Const(b.v[lo.v:hi.v:stp.v])))
+                else:
+                    out.append((s2, CallV('slice', [b, lo, hi])))
+                continue
+            for s3, i in self.ev(e.slice, s2, func):
+                if isinstance(b, ListV) and isinstance(i, Const) and isinstance(i.v, int) and -len(b.items) <= i.v < len(b.items):
+                    out.append((s3, b.items[i.v]))
+                elif isinstance(b, DictV):
+                    hit = None
+                    undecided = []
+                    for k, v in b.pairs:
+                        q = values_equal(k, i)
+                        if q is True:
+                            hit = v
+                            break
+                        if q is None:
+                            undecided.append((k, v))
+                    if hit is not None:
+                        out.append((s3, hit))
+                    elif undecided and all(isinstance(k, Const) for k, _ in b.pairs):
+                        # a constant table indexed by a symbolic key: one path per key
+                        for k, v in b.pairs:
+                            for br, s4 in self.compare(ast.Eq(), i, k, s3, e):
+                                if br:
+                                    out.append((s4, v))
+                    else:
+                        out.append((s3, CallV('raise', [Opaque('KeyError')])))
+                elif isinstance(b, Const) and isinstance(b.v, str) and isinstance(i, Const) and isinstance(i.v, int):
+                    try:
+                        out.append((s3, Const(b.v[i.v])))
+                    except IndexError:
+                        out.append((s3, CallV('raise', [Opaque('IndexError')])))
+                elif isinstance(b, Sym):
+                    out.append((s3, Sym('%s[%s]' % (b.path, i.v if isinstance(i, Const) else repr(i)))))
+                else:
+                    out.append((s3, CallV('getitem', [b, i])))
+        return out
+
+    def comprehension(self, e, st, func):
+        g = e.generators[0]
+        out = []
+        for s2, it in self.ev(g.iter, st, func):
+            seq = self.as_sequence(it)
+            if seq is not None:
+                states = [(s2, [])]
+                for item in seq:
+                    nxt = []
+                    for s3, items in states:
+                        self.assign(g.target, item, s3, func)
+                        conds = [(True, s3)]
+                        for c in g.ifs:
+                            n2 = []
+                            for ok, s4 in conds:
+                                if not ok:
+                                    n2.append((False, s4))
+                                    continue
+                                n2.extend(self.cond(c, s4, func))
+                            conds = n2
+                        for ok, s4 in conds:
+                            if not ok:
+                                nxt.append((s4, items))
+                                continue
+                            for s5, v in self.ev(e.elt, s4, func):
+                                nxt.append((s5, items + [v]))
+                    states = nxt
+                out.extend((s3, ListV(items)) for s3, items in states)
+            else:
+                s3 = s2.copy()
+                var = Sym('elem(%r)' % (it,))
+                self.assign(g.target, var, s3, func)
+                res = self.ev(e.elt, s3, func)
+                out.append((s2, CallV('map', [res[0][1] if res else Opaque('?'), it])))
+        return out
 
     def attr(self, b, name, st, func, node):
         if isinstance(b, Sym):
             return Sym('%s.%s' % (b.path, name))
         if isinstance(b, New):
+            if b.fields and name in b.fields:
+                return b.fields[name]
             v = self.new_field(b, name)
             if v is not None:
                 return v
             m = self.repo.lookup_method(b.cls, name)
             if m is not None:
                 return ('bound', m, b)
+            for c in self.repo.mro(b.cls):
+                if name in c.class_attrs and isinstance(c.class_attrs[name], ast.Constant):
+                    return Const(c.class_attrs[name].value)
             return CallV('attr:' + name, [b])
         if isinstance(b, SelfV):
+            if name in st.fields:
+                return st.fields[name]
             m = self.repo.lookup_method(b.cls, name)
             if m is not None:
                 return ('bound', m, b)
+            for c in self.repo.mro(b.cls):
+                if name in c.class_attrs and isinstance(c.class_attrs[name], ast.Constant):
+                    return Const(c.class_attrs[name].value)
             return Sym('self.%s' % name)
         if isinstance(b, tuple) and b[0] == 'class':
             m = self.repo.lookup_method(b[1], name)
             if m is not None:
                 return ('func', m)
+            if name == '__name__':
+                return Const(b[1].name)
+        if isinstance(b, (ListV, DictV, Const)):
+            return ('method', b, name)
+        if isinstance(b, Opaque) and b.text in ('itertools', 'functools', 'dict'):
+            return Opaque('%s.%s' % (b.text, name))
+        if isinstance(b, Opaque) and b.text == 'itertools.chain' and name == 'from_iterable':
+            return Opaque('itertools.chain.from_iterable')
         return CallV('attr:' + name, [b])
 
     def new_field(self, obj, attr):
@@ -608,7 +1079,22 @@ class SymEx:
                     return None
                 if isinstance(n.value, ast.Constant):
                     return Const(n.value.value)
+                # a field computed in the constructor (e.g. a name built from a counter): evaluate the constructor
+                return self._construct(obj, init).get(attr)
         return None
+
+    def _construct(self, obj, init):
+        if obj.fields is None:
+            obj.fields = {}
+            if self.depth < self.max_depth:
+                self.depth += 1
+                try:
+                    self.run(init, [obj] + obj.args, PathState(), with_self=True, kwargs=obj.kwargs)
+                except AnalysisError:
+                    pass
+                finally:
+                    self.depth -= 1
+        return obj.fields
 
     # -- calls ----------------------------------------------------------------------------
     def call(self, e, st, func):
@@ -620,10 +1106,10 @@ class SymEx:
             for s2, seq in self.ev(e.args[1], st, func):
                 inits = self.ev(e.args[2], s2, func) if len(e.args) > 2 else [(s2, None)]
                 for s3, init in inits:
-                    if not isinstance(seq, ListV) or len(ps) != 2:
+                    items = self.as_sequence(seq)
+                    if items is None or len(ps) != 2:
                         outs.append((s3, CallV('reduce', [Opaque('lambda'), seq, init])))
                         continue
-                    items = list(seq.items)
                     acc = init
                     if acc is None:
                         if not items:
@@ -640,7 +1126,6 @@ class SymEx:
                         cur.env = saved
                     outs.append((cur, acc))
             return outs
-        # evaluate callee and arguments
         outs = []
         for s2, f in self.ev(e.func, st, func):
             states = [(s2, [])]
@@ -648,19 +1133,30 @@ class SymEx:
                 nxt = []
                 for s3, args in states:
                     for s4, v in self.ev(a.value if isinstance(a, ast.Starred) else a, s3, func):
-                        if isinstance(a, ast.Starred) and isinstance(v, ListV):
-                            nxt.append((s4, args + v.items))
+                        if isinstance(a, ast.Starred) and self.as_sequence(v) is not None:
+                            nxt.append((s4, args + self.as_sequence(v)))
                         else:
                             nxt.append((s4, args + [v]))
                 states = nxt
-            kw = {}
-            for k in e.keywords:
-                if k.arg is not None:
-                    res = self.ev(k.value, st, func)
-                    kw[k.arg] = res[0][1]
             for s3, args in states:
+                kw = {}
+                for k in e.keywords:
+                    res = self.ev(k.value, s3, func)
+                    if k.arg is not None:
+                        kw[k.arg] = res[0][1]
+                    elif isinstance(res[0][1], DictV):
+                        for kk, vv in res[0][1].pairs:
+                            if isinstance(kk, Const):
+                                kw[kk.v] = vv
                 outs.extend(self.apply(e, f, args, kw, s3, func))
         return outs
+
+    def _inline(self, m, args, kw, st, with_self):
+        self.depth += 1
+        try:
+            return self.run(m, args, st, with_self=with_self, kwargs=kw)
+        finally:
+            self.depth -= 1
 
     def apply(self, e, f, args, kw, st, func):
         if isinstance(f, tuple) and f[0] == 'class':
@@ -669,54 +1165,211 @@ class SymEx:
             m, recv = f[1], f[2]
             if self.opaque(m.name):
                 return [(st, CallV(m.name, args, recv=None if isinstance(recv, SelfV) else recv, node=e))]
+            if self.inline(m) and self.depth < self.max_depth and not m.is_contextmanager:
+                return self._inline(m, [recv] + args, kw, st, True)
             if m.is_generator:
                 return [(st, CallV('gen:' + m.qname, args, recv=recv, node=e))]
-            if self.inline(m) and self.depth < self.max_depth:
-                self.depth += 1
-                try:
-                    return self.run(m, [recv] + args, st, with_self=True, kwargs=kw)
-                finally:
-                    self.depth -= 1
             return [(st, CallV(m.name, args, recv=None if isinstance(recv, SelfV) else recv, node=e))]
         if isinstance(f, tuple) and f[0] == 'func':
             m = f[1]
             if self.opaque(m.name):
                 return [(st, CallV(m.name, args, node=e))]
+            if self.inline(m) and self.depth < self.max_depth and not m.is_contextmanager:
+                return self._inline(m, args, kw, st, False)
             if m.is_generator:
                 return [(st, CallV('gen:' + m.qname, args, node=e))]
-            if self.inline(m) and self.depth < self.max_depth:
-                self.depth += 1
-                try:
-                    return self.run(m, args, st, kwargs=kw)
-                finally:
-                    self.depth -= 1
             return [(st, CallV(m.name, args, node=e))]
+        if isinstance(f, tuple) and f[0] == 'lambda':
+            lam, lf = f[1], f[2]
+            saved = dict(st.env)
+            for p, a in zip([x.arg for x in lam.args.args], args):
+                st.env[p] = a
+            res = self.ev(lam.body, st, lf)
+            for s2, _ in res:
+                s2.env = saved
+            return res
+        if isinstance(f, tuple) and f[0] == 'method':
+            return self.method(e, f[1], f[2], args, kw, st, func)
+        if isinstance(f, Opaque) and f.text == 'itertools.chain.from_iterable' and args:
+            seq = self.as_sequence(args[0])
+            if seq is not None and all(self.as_sequence(x) is not None for x in seq):
+                flat = []
+                for x in seq:
+                    flat.extend(self.as_sequence(x))
+                return [(st, ListV(flat))]
+            return [(st, CallV('chain.from_iterable', args, node=e))]
+        if isinstance(f, Opaque) and f.text == 'dict.fromkeys' and args and self.as_sequence(args[0]) is not None:
+            d = DictV()
+            for k in self.as_sequence(args[0]):
+                if not any(values_equal(k, q[0]) is True for q in d.pairs):
+                    d.pairs.append([k, args[1] if len(args) > 1 else Const(None)])
+            return [(st, d)]
         if isinstance(e.func, ast.Name):
-            n = e.func.id
-            if n == 'len' and args and isinstance(args[0], ListV):
-                return [(st, Const(len(args[0].items)))]
-            if n == 'str' and args and isinstance(args[0], Const):
-                return [(st, Const(str(args[0].v)))]
-            if n == 'list' and args and isinstance(args[0], ListV):
-                return [(st, ListV(args[0].items))]
-            if n == 'reversed' and args and isinstance(args[0], ListV):
-                return [(st, ListV(list(reversed(args[0].items))))]
-            return [(st, CallV(n, args, node=e))]
+            r = self.builtin(e.func.id, args, kw, st, e)
+            if r is not None:
+                return r
+            return [(st, CallV(e.func.id, args, node=e))]
         if isinstance(e.func, ast.Attribute):
             recv = self.ev(e.func.value, st, func)[0][1]
             name = e.func.attr
-            if isinstance(recv, ListV) and name == 'append' and args:
-                recv.items.append(args[0])
-                return [(st, Const(None))]
-            if isinstance(recv, ListV) and name == 'extend' and args and isinstance(args[0], ListV):
-                recv.items.extend(args[0].items)
-                return [(st, Const(None))]
-            # method call on a pattern variable of known class(es): dispatch
             if isinstance(recv, Sym):
                 cls = self.classes_of(st, recv.path)
                 return self.dispatch(e, recv, name, args, cls, st, func)
             return [(st, CallV(name, args, recv=recv, node=e))]
         return [(st, CallV(norm(e.func), args, node=e))]
+
+    def builtin(self, n, args, kw, st, e):
+        a0 = args[0] if args else None
+        seq0 = self.as_sequence(a0) if a0 is not None else None
+        if n == 'len' and a0 is not None:
+            if isinstance(a0, DictV):
+                return [(st, Const(len(a0.pairs)))]
+            if seq0 is not None:
+                return [(st, Const(len(seq0)))]
+        if n == 'str' and isinstance(a0, Const):
+            return [(st, Const(str(a0.v)))]
+        if n == 'str' and isinstance(a0, Fresh):
+            return [(st, a0)]
+        if n == 'str' and isinstance(a0, New) and self.depth < self.max_depth:
+            m = self.repo.lookup_method(a0.cls, '__str__')
+            if m is not None and self.inline(m):
+                return self._inline(m, [a0], {}, st, True)
+        if n == 'int' and isinstance(a0, Const):
+            try:
+                return [(st, Const(int(a0.v)))]
+            except (TypeError, ValueError):
+                return None
+        if n in ('list', 'tuple', 'set', 'frozenset') and (seq0 is not None or not args):
+            items = seq0 or []
+            if n in ('set', 'frozenset'):
+                uniq = []
+                for x in items:
+                    if not any(values_equal(x, y) is True for y in uniq):
+                        uniq.append(x)
+                items = uniq
+            return [(st, ListV(items, n == 'tuple'))]
+        if n == 'dict' and not args:
+            return [(st, DictV([[Const(k), v] for k, v in kw.items()]))]
+        if n == 'dict' and isinstance(a0, DictV):
+            return [(st, _deep(a0, {}))]
+        if n == 'reversed' and seq0 is not None:
+            return [(st, ListV(list(reversed(seq0))))]
+        if n == 'sorted' and seq0 is not None and all(isinstance(x, Const) for x in seq0):
+            try:
+                return [(st, ListV([Const(v) for v in sorted(x.v for x in seq0)]))]
+            except TypeError:
+                return None
+        if n == 'range' and args and all(isinstance(x, Const) and isinstance(x.v, int) for x in args):
+            return [(st, ListV([Const(i) for i in range(*[x.v for x in args])]))]
+        if n == 'enumerate' and seq0 is not None:
+            start = args[1].v if len(args) > 1 and isinstance(args[1], Const) else 0
+            return [(st, ListV([ListV([Const(i + start), x], True) for i, x in enumerate(seq0)]))]
+        if n == 'zip' and args and all(self.as_sequence(x) is not None for x in args):
+            seqs = [self.as_sequence(x) for x in args]
+            return [(st, ListV([ListV(list(t), True) for t in zip(*seqs)]))]
+        if n in ('any', 'all') and seq0 is not None and all(isinstance(x, Const) for x in seq0):
+            return [(st, Const(any(x.v for x in seq0) if n == 'any' else all(x.v for x in seq0)))]
+        if n == 'bool' and isinstance(a0, (Const, ListV, DictV, New)):
+            return [(st, Const(bool(a0.v) if isinstance(a0, Const) else bool(a0.items) if isinstance(a0, ListV) else
+                            bool(a0.pairs) if isinstance(a0, DictV) else True))]
+        if n in ('min', 'max') and args and all(isinstance(x, Const) for x in args):
+            return [(st, Const(min(x.v for x in args) if n == 'min' else max(x.v for x in args)))]
+        if n == 'getattr' and len(args) >= 2 and isinstance(args[1], Const):
+            v = self.attr(args[0], args[1].v, st, None, e)
+            if isinstance(v, CallV) and len(args) > 2:
+                return [(st, args[2])]
+            return [(st, v)]
+        if n == 'repr' and isinstance(a0, Const):
+            return [(st, Const(repr(a0.v)))]
+        if n == 'isinstance':
+            return None
+        return None
+
+    def method(self, e, recv, name, args, kw, st, func):
+        if isinstance(recv, ListV):
+            if name == 'append' and args:
+                recv.items.append(args[0])
+                return [(st, Const(None))]
+            if name == 'extend' and args and self.as_sequence(args[0]) is not None:
+                recv.items.extend(self.as_sequence(args[0]))
+                return [(st, Const(None))]
+            if name == 'insert' and len(args) == 2 and isinstance(args[0], Const):
+                recv.items.insert(args[0].v, args[1])
+                return [(st, Const(None))]
+            if name == 'pop':
+                if recv.items:
+                    i = args[0].v if args and isinstance(args[0], Const) else -1
+                    return [(st, recv.items.pop(i))]
+                return [(st, CallV('raise', [Opaque('pop from empty list')]))]
+            if name == 'copy':
+                return [(st, ListV(recv.items, recv.tuple_))]
+            if name == 'reverse':
+                recv.items.reverse()
+                return [(st, Const(None))]
+            if name == 'index' and args:
+                for i, x in enumerate(recv.items):
+                    if values_equal(x, args[0]) is True:
+                        return [(st, Const(i))]
+            if name == 'count' and args:
+                return [(st, Const(len([x for x in recv.items if values_equal(x, args[0]) is True])))]
+        if isinstance(recv, DictV):
+            def find(k):
+                for p in recv.pairs:
+                    if values_equal(p[0], k) is True:
+                        return p
+                return None
+            if name == 'get' and args:
+                p = find(args[0])
+                if p is not None:
+                    return [(st, p[1])]
+                if all(values_equal(q[0], args[0]) is False for q in recv.pairs):
+                    return [(st, args[1] if len(args) > 1 else Const(None))]
+            if name == 'setdefault' and args:
+                p = find(args[0])
+                if p is not None:
+                    return [(st, p[1])]
+                if all(values_equal(q[0], args[0]) is False for q in recv.pairs):
+                    v = args[1] if len(args) > 1 else Const(None)
+                    recv.pairs.append([args[0], v])
+                    return [(st, v)]
+            if name == 'items':
+                return [(st, ListV([ListV([k, v], True) for k, v in recv.pairs]))]
+            if name == 'keys':
+                return [(st, ListV([k for k, _ in recv.pairs]))]
+            if name == 'values':
+                return [(st, ListV([v for _, v in recv.pairs]))]
+            if name == 'update' and args and isinstance(args[0], DictV):
+                for k, v in args[0].pairs:
+                    p = find(k)
+                    if p is not None:
+                        p[1] = v
+                    else:
+                        recv.pairs.append([k, v])
+                return [(st, Const(None))]
+            if name == 'copy':
+                return [(st, _deep(recv, {}))]
+            if name == 'pop' and args:
+                p = find(args[0])
+                if p is not None:
+                    recv.pairs.remove(p)
+                    return [(st, p[1])]
+        if isinstance(recv, Const) and isinstance(recv.v, str):
+            if name == 'join' and args:
+                seq = self.as_sequence(args[0])
+                if seq is not None and all(isinstance(x, Const) and isinstance(x.v, str) for x in seq):
+                    return [(st, Const(recv.v.join(x.v for x in seq)))]
+            if name == 'format' and all(isinstance(x, Const) for x in args) and all(isinstance(v, Const) for v in kw.values()):
+                try:
+                    return [(st, Const(recv.v.format(*[x.v for x in args], **{k: v.v for k, v in kw.items()})))]
+                except Exception:
+                    pass
+            if name == 'format' and len([x for x in args if isinstance(x, Fresh)]) == 1 and all(isinstance(x, (Const, Fresh)) for x in args):
+                return [(st, [x for x in args if isinstance(x, Fresh)][0])]
+            if name in ('startswith', 'endswith') and args and isinstance(args[0], Const):
+                return [(st, Const(getattr(recv.v, name)(args[0].v)))]
+            if name in ('lower', 'upper', 'strip', 'lstrip', 'rstrip') and all(isinstance(x, Const) for x in args):
+                return [(st, Const(getattr(recv.v, name)(*[x.v for x in args])))]
+        return [(st, CallV(name, args, recv=recv, node=e))]
 
     def dispatch(self, e, recv, name, args, classes, st, func):
         if not classes:
@@ -743,6 +1396,11 @@ class SymEx:
             else:
                 outs.append((s2, CallV(name, args, recv=recv, node=e)))
         return outs
+
+
+_BREAK = object()
+_CONTINUE = object()
+_BROKE = object()
 
 
 def _load(t):
